@@ -3,7 +3,7 @@ from campaigns_util import B
 SPEC = {
     "pkg": "props/c09", "level": "exploration", "bins": ["ts-server"],
     "rule": ("histories on one real server (ptnum-pernode 1 or 4, max-rows-per-segment 8: many segments per file) with null-heavy columns, in four layout phases "
-             "(memtable; one flushed file; more writes incl. late data + flushes; after merge/compaction), plus the dense_segments campaign (1-3 series written as runs of "
+             "(memtable; one flushed file; more writes incl. late data + flushes; after merge/compaction), plus the overwrite_layers campaign (cells rewritten across a first ordered file, a second ordered file continuing one series, 1-2 out-of-order files and the memtable) and the dense_segments campaign (1-3 series written as runs of "
              "9-30 consecutive rows per flush, so chunks have 2-4 segments that a time range covers fully or cuts; wide value domain); each generated aggregate query (count/sum/mean/min/max/first/last, "
              "1-3 calls, overall / per tag group / per time bucket, asc/desc, optional tag filter, field filter, exact-statistics hint; time-range ends on data "
              "timestamps +-1) is paired with the plain select of the same WHERE and must equal the function applied by internal/qref to the rows the plain select "
@@ -12,6 +12,7 @@ SPEC = {
     "assumptions": ["the paired plain select is the ground truth for the pair (if it disagrees with the model the pair is attributed to C02 and skipped, counted)",
                     "tie choices (equal timestamps / equal extremes) and count over an empty bucket are admissible sets as in C08"],
     "campaigns": [
+        {"name": "overwrite_layers", "run": "^TestOverwriteLayers$", "quick": B(4, 4, 900, shrinktime="60s"), "thorough": B(40, 6, 3400, shrinktime="180s")},
         {"name": "dense_segments", "run": "^TestDenseSegments$", "quick": B(7, 6, 900, shrinktime="60s"), "thorough": B(60, 8, 3400, shrinktime="180s")},
         {"name": "aggregate_pairs", "run": "^TestAggregatePairs$", "quick": B(4, 10, 900, shrinktime="60s"), "thorough": B(60, 14, 3400, shrinktime="180s")},
     ],
